@@ -58,23 +58,29 @@ def _stack_index(p):
 # ----------------------------------------------------------------------------------------------
 
 class _Gate:
+    """child side of the pipe protocol; raw descriptors, so that a signal handler of the locker (which makes gated
+    calls of its own while the interrupted call is still waiting for its `go`) can use it re-entrantly"""
+
     def __init__(self, rfd, wfd):
-        self.r = real_os.fdopen(rfd, "r")
-        self.w = real_os.fdopen(wfd, "w")
+        self.rfd = rfd
+        self.wfd = wfd
+        self.buf = b""
         self.order = {}          # stack index (str) -> real pids, newest lock file first
         self.pidmap = {}         # real pid (str) -> process index
         self.multi = False       # several stacks: call names carry "@<stack index>"
         self.users = {}          # process index (str) -> login name the locker runs under (None: the real one)
 
     def say(self, what):
-        self.w.write(what + "\n")
-        self.w.flush()
+        real_os.write(self.wfd, (what + "\n").encode())
 
     def recv(self):
-        ln = self.r.readline()
-        if not ln:
-            real_os._exit(0)     # scheduler went away
-        return ln.rstrip("\n")
+        while b"\n" not in self.buf:
+            b = real_os.read(self.rfd, 65536)
+            if not b:
+                real_os._exit(0)     # scheduler went away
+            self.buf += b
+        ln, self.buf = self.buf.split(b"\n", 1)
+        return ln.decode()
 
     def call(self, name):
         self.say("CALL " + name)
@@ -297,6 +303,20 @@ def _child(spec, rfd, wfd):
         from eups import hooks, utils
         handlers = []
         atexit.register = lambda f, *a, **kw: handlers.append((f, a, kw))
+        # a signal handler the locker installs runs gated like everything else; if it RETURNS, the interrupted command
+        # body resumes: say so, and announce the body again (the `go` it is still waiting for has not been sent)
+        orig_signal = signal.signal
+
+        def gated_signal(signum, h):
+            if not callable(h):
+                return orig_signal(signum, h)
+
+            def wrapped(sn, frame):
+                h(sn, frame)
+                g.say("RESUMED")
+                g.say("CALL work")
+            return orig_signal(signum, wrapped)
+        signal.signal = gated_signal
         if spec.get("user"):
             # the login name lock.py puts into its file names: utils.getUserName() answers from this cache of its own
             utils.getUserName.who = {False: spec["user"], True: spec["user"]}
@@ -405,7 +425,10 @@ class Proc:
                 self.pending = None
                 self.ended = True
                 if self.crash is None and not self._saw_end:
-                    self.crash = "died"
+                    if self.signalled:
+                        self.killed = True
+                    else:
+                        self.crash = "died"
                 return res
             if ln.startswith("CALL "):
                 self.pending = ln[5:]
@@ -415,6 +438,10 @@ class Proc:
             elif ln.startswith("HOLD "):
                 self.held = json.loads(ln[5:])
                 self.nlocks = len(self.held)
+            elif ln == "RESUMED":
+                self.resumed = True         # a signal handler returned: the body carries on, whatever locks it gave up
+                self.held, self.nlocks = [], 0
+                self.held_kinds = []
             elif ln == "BODY":
                 self.body_from_fs = True
             elif ln.startswith("STATUS "):
@@ -436,6 +463,9 @@ class Proc:
                 self.crash = ln[6:]
 
     _saw_end = False
+    signalled = False
+    killed = False
+    resumed = False
     body_from_fs = False
     status = None
     bodyfail = None
@@ -453,9 +483,17 @@ class Proc:
     def in_body(self):
         return self.pending == "work"
 
+    def signal(self, signum):
+        """deliver a signal to the locker (it is waiting in its command body) and read up to what it announces next"""
+        self.signalled = True
+        os.kill(self.pid, signum)
+        self._advance()
+
     def outcome(self):
         if self.crash:
             return "crash:" + self.crash
+        if self.killed:
+            return "killed"
         if self.acqfail:
             return "failed:" + self.acqfail
         if self.pending == "work":
@@ -590,6 +628,16 @@ def run_schedule(case, phases=None):
             return v
 
         def one(i):
+            if i < 0:
+                # a signal for process -(i+1): delivered while it is in its command body, otherwise not sent at all
+                p = procs[-i - 1]
+                executed.append(i)
+                if p.pending == "work":
+                    p.signal(signal.SIGINT if case.get("signal") == "INT" else signal.SIGTERM)
+                    trace.append([p.index, "signal", "delivered", current_violators(True)])
+                else:
+                    trace.append([p.index, "signal", "ignored", current_violators(False)])
+                return
             p = procs[i]
             executed.append(i)
             if p.pending is None:
@@ -665,7 +713,8 @@ def run_schedule(case, phases=None):
                 "violations": viols, "phase_steps": phase_steps,
                 "held": [p.held if p.nlocks is not None else None for p in procs],
                 "held_kinds": [getattr(p, "held_kinds", None) for p in procs],
-                "status": [p.status for p in procs], "products": products, "stack_changed": changed}
+                "status": [p.status for p in procs], "products": products, "stack_changed": changed,
+                "resumed": [p.index for p in procs if p.resumed]}
     finally:
         for p in procs:
             if not p.ended:
